@@ -84,6 +84,16 @@ def new_op(rng, kind, idn=0, small=False, **over):
             a, b = rng.choice(RATES), rng.choice(RATES)
             g = gcd(a, b)
         op["fs_in"], op["fs_out"] = a, b
+        if rng.random() < 0.35:
+            # chunk = sub_chunks whole FFT blocks of an arbitrary size (also 3, 5, 6, 7 blocks per chunk)
+            unit = (b if kind == "FftFixedOut" else a) // g
+            m = rng.choice([1, 2, 3, 5, 8, 16, 40, 80, 160, 240, 320, 480])
+            f = unit * max(1, m // unit if unit > 1 and m >= unit else m)
+            while f > 1500:
+                f //= 2
+            f = max(unit, (f // unit) * unit)
+            op["sub"] = 1 if kind == "FftFixedInOut" else rng.choice([1, 2, 3, 4, 5, 6, 7, 8])
+            op["chunk"] = f * op["sub"]
     op.update(over)
     return op
 
